@@ -561,8 +561,12 @@ def eval_frame_bloc(f, snap, fm, kspec, vspec):
         raise ValueError(vspec)
     node = f.assign.bloc[key]
     op = (lambda: node.apply(value)) if t == 'apply' else (lambda: node(value, **kw))
+    key_before = key.copy() if isinstance(key, np.ndarray) else None
     r, exc, mutated = run_op(op, f, snap)
     area = f'{PID}:Frame.assign.bloc'
+    if key_before is not None and (key.shape != key_before.shape or (key != key_before).any()):
+        # "leave the original as it was" covers what the caller handed in: a Boolean key array is an input, not scratch space
+        return outcome(False, f'{area}:caller-key-array-mutated', f'assign.bloc wrote into the Boolean key array supplied by the caller: {key_before.tolist()} -> {key.tolist()}')
     ktxt = kspec[0]
     if ktxt == 'frame' and (all(S._is_absent(c_) for c_ in kspec[2]) or all(S._is_absent(r_) for r_ in kspec[1])):
         ktxt = 'frame-disjoint-labels'
